@@ -20,6 +20,7 @@ are decoded by explicit forks; the template is compiled and rendered natively in
 Oracle (the property text): the access yields an undefined value or raises ``SecurityError``; no
 tracer value is ever operated on, printed, or handed to the recording callable ``rec``.
 """
+import atexit
 import collections
 import sys
 import types
@@ -469,9 +470,21 @@ def _names_for(obj, ikind, extra, thorough, seed):
     out = list(extra) + priv + dund + list(INTERNAL.get(ikind, []))
     seen = []
     for n in out:
-        if n not in seen and n.isidentifier():
+        if n not in seen and n.isidentifier() and not _is_item(obj, n):
             seen.append(n)
     return seen
+
+
+def _is_item(obj, n):
+    """obj[n] is an *item* (e.g. dict['__class__'] is the generic alias dict.__class_getitem__('__class__')): the
+    subscript forms legitimately return it, the property is about attributes only (see OUTSIDE)."""
+    if isinstance(obj, Undefined):
+        return False
+    try:
+        obj[n]
+    except Exception:
+        return False
+    return True
 
 
 _GRABBED = {}
@@ -523,6 +536,7 @@ def setup(param):
     del TOUCHED[:]
     _TCACHE.clear()
     _envs()
+    _a_setup()
     PAIRS = []
     FORMSEL = []
     if "cat" in P:
@@ -634,7 +648,16 @@ def run_case(envcls, asyncm, okey, name, form):
         return False
     if exc is not None:
         # the property allows SecurityError; refusing to compile the access at all is also no access
-        return isinstance(exc, (SecurityError, TemplateSyntaxError))
+        if isinstance(exc, (SecurityError, TemplateSyntaxError)):
+            return True
+        # subscripting / formatting an *undefined* object fails before any attribute is looked up
+        if isinstance(exc, UndefinedError) and okey in ("undefined", "undefined_name"):
+            return True
+        # string.Formatter of this Python has no auto-numbering for '{.name}': KeyError('') before any lookup
+        # (the form is kept: it does reach get_field on interpreters that support it)
+        if form == "fmt_auto" and isinstance(exc, KeyError) and exc.args == ("",):
+            return True
+        return False
     if MARK in out:
         return False
     for v in recd:
@@ -677,6 +700,7 @@ def _a_setup():
     with warnings.catch_warnings():
         warnings.simplefilter("ignore")
         co = _coro()
+        atexit.register(co.close)
     A_OBJS.extend([
         ("plain", Plain(0), None), ("function", _mk_fn(0), None), ("method", _mk_meth(0), None), ("class", Plain, "cls"),
         ("generator", _gen(), "gen"), ("coroutine", co, "coro"), ("asyncgen", _agen(), "agen"),
@@ -704,12 +728,27 @@ def underscore_unsafe_ok(name: str, kind: int) -> bool:
     return A_ENVS[P.get("env", "sandboxed")].is_safe_attribute(obj, name, VALUE) is False
 
 
+def _ci_kinds():
+    # ImmutableSandboxedEnvironment looks non-underscore names of list/dict/set/deque up in a frozenset (hashing
+    # realises the symbolic name: not exhaustible).  Those kinds have no internal-table names, so for them
+    # "classified internal" implies "starts with an underscore", which underscore_unsafe_ok covers for all kinds.
+    _a_setup()
+    if P.get("env") == "immutable":
+        return [o for o in A_OBJS if o[0] not in ("list", "dict", "set", "deque")]
+    return A_OBJS
+
+
+def NCIKINDS():
+    return len(_ci_kinds())
+
+
 def classified_internal_unsafe_ok(name: str, kind: int) -> bool:
     """
-    pre: len(name) <= MAXNAME() and 0 <= kind < NKINDS()
+    pre: len(name) <= MAXNAME() and 0 <= kind < NCIKINDS()
     post: _
     """
-    obj = A_OBJS[pick(kind, len(A_OBJS))][1]
+    sel = _ci_kinds()
+    obj = sel[pick(kind, len(sel))][1]
     safe = A_ENVS[P.get("env", "sandboxed")].is_safe_attribute(obj, name, VALUE)
     if safe is not True:
         return safe is False
@@ -774,9 +813,11 @@ def conditions(tier, seed):
         out.append(Cond(f"is_safe_attribute[{envc}]: underscore names never safe", "underscore_unsafe_ok", mode="A", param=p, timeout=to,
                         witnesses=[["_", 0], ["__class__", 3], ["_x", 9], ["_Ab", 4]],
                         bounds=f"every str name of length <= {maxname} starting with '_' x {len(A_OBJS)} object kinds ({', '.join(o[0] for o in A_OBJS)})"))
+        nci = len(A_OBJS) - (4 if envc == "immutable" else 0)
         out.append(Cond(f"is_safe_attribute[{envc}]: safe implies not underscore and not classified internal", "classified_internal_unsafe_ok",
                         mode="A", param=p, timeout=to, witnesses=[["mro", 3], ["gi_frame", 4], ["append", 7], ["x", 0], ["cr_code", 5]],
-                        bounds=f"every str name of length <= {maxname} x {len(A_OBJS)} object kinds"))
+                        bounds=f"every str name of length <= {maxname} x {nci} object kinds"
+                               + (" (list/dict/set/deque: no internal-table names, covered by the underscore condition)" if envc == "immutable" else "")))
         out.append(Cond(f"is_safe_attribute[{envc}]: code/frame/traceback attributes never safe", "everything_internal_ok",
                         mode="A", param=p, timeout=to, witnesses=[["co_code", 0], ["f_back", 1], ["tb_next", 2], ["", 0]],
                         bounds=f"every str name of length <= {maxname} x code, frame, traceback objects"))
